@@ -177,9 +177,12 @@ def updLay (g : Geo) (i : Nat) (f : Layer → Layer) : Geo := { g with L := g.L.
 
 /-- `s.add(x)` -/
 def setAdd (s : List Nat) (x : Nat) : List Nat := if s.contains x then s else s ++ [x]
-/-- `s.remove(x)` raises `KeyError` when `x` is absent -/
+/-- `s.remove(x)` raises `KeyError` when `x` is absent (a set has no multiplicities: every copy goes) -/
 def setRemove (s : List Nat) (x : Nat) : Except Exc (List Nat) :=
-  if s.contains x then .ok (s.erase x) else .error .keyError
+  if s.contains x then .ok (s.filter (· != x)) else .error .keyError
+
+/-- `s.discard(x)` -/
+def setDiscard (s : List Nat) (x : Nat) : List Nat := s.filter (· != x)
 /-- `l.remove(x)` raises `ValueError` when `x` is absent -/
 def listRemove (l : List Nat) (x : Nat) : Except Exc (List Nat) :=
   if l.contains x then .ok (l.erase x) else .error .valueError
@@ -281,23 +284,32 @@ def isAgainst (g : Geo) (a b : Nat) : Bool :=
 def connects (g : Geo) (a b : Nat) : Bool :=
   g.connlist.any fun k => let c := g.con k; (c.c0 = a || c.c1 = a) && (c.c0 = b || c.c1 = b)
 
-/-- `delete_connection(colnames)`; the two columns stop being neighbours unless another connection
-    of the first column still joins them (`set.discard`: no error when absent) -/
+/-- `col.connection.remove(con)` on a column record -/
+def rmCon (i : Nat) (cl : Column) : Column := { cl with cons := cl.cons.filter (· != i) }
+
+/-- the state after a successful `delete_connection` of the connection object `i` stored under `names`:
+    `col.connection.remove(con)` for both columns; the two columns stop being neighbours unless another
+    connection of the first column still joins them (`set.discard`); dict entry and list entry removed -/
+def delConn (g : Geo) (names : Name × Name) (i : Nat) : Geo :=
+  let k := g.con i
+  let g1 := (g.updCol k.c0 (rmCon i)).updCol k.c1 (rmCon i)
+  let still := (g1.col k.c0).cons.any fun j => (g1.con j).c0 = k.c1 || (g1.con j).c1 = k.c1
+  let g2 := if still then g1 else
+    (g1.updCol k.c0 fun cl => { cl with nbrs := setDiscard cl.nbrs k.c1 }).updCol k.c1 fun cl =>
+      { cl with nbrs := setDiscard cl.nbrs k.c0 }
+  { g2 with connD := g.connD.del names, connlist := g.connlist.erase i }
+
+/-- `delete_connection(colnames)`: `KeyError` when the key is unknown or a column does not list the connection
+    (`set.remove`), `ValueError` when the connection is not in `connectionlist` (`list.remove`) -/
 def deleteConnection (g : Geo) (names : Name × Name) : Except Exc Geo :=
   match g.connD.get? names with
   | none => .error .keyError
-  | some i => do
+  | some i =>
     let k := g.con i
-    let g1 ← [k.c0, k.c1].foldlM (fun (g : Geo) c => do
-      let s ← setRemove (g.col c).cons i
-      pure (g.updCol c fun cl => { cl with cons := s })) g
-    let still := (g1.col k.c0).cons.any fun j => (g1.con j).c0 = k.c1 || (g1.con j).c1 = k.c1
-    let g1 := if still then g1 else
-      (g1.updCol k.c0 fun cl => { cl with nbrs := cl.nbrs.erase k.c1 }).updCol k.c1 fun cl =>
-        { cl with nbrs := cl.nbrs.erase k.c0 }
-    let g2 := { g1 with connD := g1.connD.del names }
-    let l ← listRemove g2.connlist i
-    pure { g2 with connlist := l }
+    if !(g.col k.c0).cons.contains i then .error .keyError
+    else if !((g.updCol k.c0 (rmCon i)).col k.c1).cons.contains i then .error .keyError
+    else if !g.connlist.contains i then .error .valueError
+    else .ok (g.delConn names i)
 
 /-- `delete_column(colname)` -/
 def deleteColumn (g : Geo) (name : Name) : Except Exc Geo :=
